@@ -1,5 +1,5 @@
 #!/usr/bin/env python3
-"""Writes sa/param_names.json: for every function of the crate, its parameter names by position, as they are in the tree this is
+"""Writes sa/param_names.json sa/field_names.json (name, type, publicness of every field) and sa/field_order.json (declaration order of the fields of every type without a layout repr): for every function of the crate, its parameter names by position, as they are in the tree this is
 run on. The file is a frozen reference (see facts.canonical_param_names); regenerate it only deliberately, on a tree whose names
 the rules' references were written against. Usage: PG_REPO=<tree> python3 sa/gen_param_names.py"""
 import json
@@ -10,6 +10,9 @@ import facts as F
 
 if os.path.exists(F.PARAM_NAMES_FILE):
     os.rename(F.PARAM_NAMES_FILE, F.PARAM_NAMES_FILE + ".old")
+for f_ in (F.FIELD_ORDER_FILE, F.FIELD_NAMES_FILE):
+    if os.path.exists(f_):
+        os.remove(f_)
 out = {}
 dup = set()
 for feature in ("", "uuid"):
@@ -28,5 +31,25 @@ for k in dup:
     del out[k]
 json.dump(out, open(F.PARAM_NAMES_FILE, "w"), indent=0, sort_keys=True)
 print("%d functions, %d ambiguous keys dropped" % (len(out), len(dup)))
+fo = {}
+for feature in ("", "uuid"):
+    fx = F.Facts(F.extract(feature=feature)[0])
+    for a in fx.all_adts("proguard"):
+        if a.get("repr_c") or a.get("repr_packed") or a.get("repr_transparent"):
+            continue
+        vs = {v["name"]: [f_["name"] for f_ in v["fields"]] for v in a["variants"] if len(v["fields"]) > 1}
+        if vs:
+            fo[a["path"]] = vs
+json.dump(fo, open(F.FIELD_ORDER_FILE, "w"), indent=0, sort_keys=True)
+fn = {}
+for feature in ("", "uuid"):
+    fx = F.Facts(F.extract(feature=feature)[0])
+    for a in fx.all_adts("proguard"):
+        vs = {v["name"]: [[f_["name"], f_.get("ty"), f_.get("vis") == "Public"] for f_ in v["fields"]] for v in a["variants"] if v["fields"]}
+        if vs:
+            fn[a["path"]] = vs
+json.dump(fn, open(F.FIELD_NAMES_FILE, "w"), indent=0, sort_keys=True)
+print("%d types with named fields" % len(fn))
+print("%d types with an ordered field list" % len(fo))
 if os.path.exists(F.PARAM_NAMES_FILE + ".old"):
     os.remove(F.PARAM_NAMES_FILE + ".old")
